@@ -33,12 +33,13 @@ type Spec struct {
 }
 
 type Tier struct {
-	Count     int     // seeded runs
-	Floor     bool    // systematic floor
-	BudgetS   float64 // wall-clock cap per worker for the seeded part
-	StepCap   int64
-	RaceCount int // seeded runs of the -race batch (0 = none)
-	Fidelity  int // scenarios of the stub-fidelity cross-check run first (0 = none)
+	Count         int     // seeded runs
+	Floor         bool    // systematic floor
+	BudgetS       float64 // wall-clock cap per worker for the seeded part
+	StepCap       int64
+	RaceCount     int // seeded runs of the -race batch (0 = none)
+	Fidelity      int // scenarios of the stub-fidelity cross-check run first (0 = none)
+	RandomSchemas int // seeded random programs added to the generated-code corpus
 }
 
 // Job / Output mirror the worker's types (overlay/internal/zzsim/zzmain).
@@ -121,20 +122,21 @@ type Output struct {
 
 // ReplayFile is what a violation is written out as.
 type ReplayFile struct {
-	Property string   `json:"property"`
-	Check    string   `json:"check"`
-	Message  string   `json:"message"`
-	Kind     string   `json:"kind"`
-	Seed     uint64   `json:"verif_seed"`
-	RunSeed  uint64   `json:"run_seed"`
-	Index    int      `json:"index"`
-	Cell     int      `json:"cell"`
-	Mode     string   `json:"mode"` // "choices" or "seed" (process crash before the choices could be recorded)
-	Choices  []int32  `json:"choices"`
-	OrigLen  int      `json:"original_choice_count"`
-	Shrink   int      `json:"shrink_executions"`
-	Trace    []string `json:"trace"`
-	Race     bool     `json:"race_build"`
+	Property      string   `json:"property"`
+	Check         string   `json:"check"`
+	Message       string   `json:"message"`
+	Kind          string   `json:"kind"`
+	Seed          uint64   `json:"verif_seed"`
+	RunSeed       uint64   `json:"run_seed"`
+	Index         int      `json:"index"`
+	Cell          int      `json:"cell"`
+	Mode          string   `json:"mode"` // "choices" or "seed" (process crash before the choices could be recorded)
+	Choices       []int32  `json:"choices"`
+	OrigLen       int      `json:"original_choice_count"`
+	Shrink        int      `json:"shrink_executions"`
+	Trace         []string `json:"trace"`
+	Race          bool     `json:"race_build"`
+	RandomSchemas int      `json:"random_schemas"` // the corpus this replay needs (registry indexes depend on it)
 }
 
 type KnownFinding struct {
@@ -413,7 +415,25 @@ func runCheck(prop, tier, replayPath string) int {
 		}
 	}
 
-	b, err := PrepareBuild(buildOpts{Tag: prop, NeedRoot: spec.Binary == "root", NeedTB: spec.Binary == "tb", Race: rf != nil && rf.Race, Corpus: spec.Corpus})
+	randomSchemas := 0
+	if tier == "thorough" {
+		randomSchemas = spec.Thorough.RandomSchemas
+	} else if tier == "quick" {
+		randomSchemas = spec.Quick.RandomSchemas
+	}
+	if v, err := strconv.Atoi(os.Getenv("VSIM_RANDOM_SCHEMAS")); err == nil {
+		randomSchemas = v // development: try the random-schema corpus in any tier
+	}
+	if rf != nil {
+		randomSchemas = rf.RandomSchemas
+	}
+	b, err := PrepareBuild(buildOpts{Tag: prop, NeedRoot: spec.Binary == "root", NeedTB: spec.Binary == "tb", Race: rf != nil && rf.Race, Corpus: spec.Corpus,
+		RandomSchemas: randomSchemas, ExtraSeed: func() uint64 {
+			if rf != nil {
+				return rf.Seed
+			}
+			return seed
+		}()})
 	defer b.Cleanup()
 	if err != nil {
 		fmt.Fprintln(os.Stderr, "BUILD FAILED (exit 2, not a violation):", err)
@@ -479,7 +499,7 @@ func runCheck(prop, tier, replayPath string) int {
 		if rc == 0 {
 			rc = 4000
 		}
-		rb, rerr := PrepareBuild(buildOpts{Tag: prop + "-race", NeedRoot: spec.Binary == "root", NeedTB: spec.Binary == "tb", Race: true, Corpus: spec.Corpus})
+		rb, rerr := PrepareBuild(buildOpts{Tag: prop + "-race", NeedRoot: spec.Binary == "root", NeedTB: spec.Binary == "tb", Race: true, Corpus: spec.Corpus, RandomSchemas: randomSchemas, ExtraSeed: seed})
 		raceBuild = rb
 		defer rb.Cleanup()
 		if rerr != nil {
@@ -628,7 +648,7 @@ func runCheck(prop, tier, replayPath string) int {
 		}
 		path := filepath.Join(replayDir, fmt.Sprintf("%s-%d-%d.json", prop, seed, len(vioLines)))
 		rfile := ReplayFile{Property: prop, Check: v.Check, Message: v.Msg, Kind: v.Kind, Seed: seed, RunSeed: v.RunSeed, Index: v.Index, Cell: v.Cell,
-			Mode: "choices", Choices: v.Choices, OrigLen: v.OrigLen, Shrink: v.ShrinkRun, Trace: v.Trace}
+			Mode: "choices", Choices: v.Choices, OrigLen: v.OrigLen, Shrink: v.ShrinkRun, Trace: v.Trace, RandomSchemas: b.RandomSchemas}
 		if strings.HasPrefix(v.Kind, "seed:") || strings.HasPrefix(v.Kind, "race-seed:") {
 			rfile.Mode = "seed"
 			rfile.Seed = v.Seed
@@ -879,6 +899,7 @@ func writeEvidence(spec Spec, tier string, seed uint64, a *agg, b *Build, wall f
 	}
 	if spec.Corpus {
 		cov["generated_types_in_registry"] = b.Registry
+		cov["seeded_random_schemas_in_corpus"] = b.RandomSchemas
 		cov["regenerated_packages_dropped_because_they_do_not_compile"] = b.Dropped
 	}
 	if len(cells) > 0 {
